@@ -12,6 +12,9 @@ pub struct RunResult {
     pub wall_ms: u64,
     pub virtual_ms: u64,
     pub sample: Value,
+    /// Component workloads: number of cases evaluated and the distinct non-trivial case classes seen.
+    pub cases: u64,
+    pub classes: Vec<String>,
 }
 
 impl RunResult {
@@ -35,6 +38,8 @@ impl RunResult {
             "wall_ms": self.wall_ms,
             "virtual_ms": self.virtual_ms,
             "sample": self.sample,
+            "cases": self.cases,
+            "classes": self.classes,
         })
     }
 
